@@ -177,7 +177,7 @@ func jsonSemantic(raw []byte) (interface{}, bool) {
 	if err := dec.Decode(&x); err != nil {
 		return nil, false
 	}
-	if len(bytes.TrimSpace(raw[dec.InputOffset():])) != 0 {
+	if !isJSONSpace(raw[dec.InputOffset():]) { // JSON white space only (bytes.TrimSpace would also let VT, FF, NEL, NBSP pass)
 		return nil, false
 	}
 	if m, ok := x.(map[string]interface{}); ok {
